@@ -16,7 +16,7 @@
     before/after oracle. *)
 From DV Require Import Model.Base Model.NameCheck Model.Parser Model.Header Model.Readers Model.Uncompress
   Model.Mutate Spec.PlainSpec Proofs.Hoare Proofs.HeaderBits Proofs.InsertLemmas Proofs.PlainWf Proofs.InsertFail Proofs.InsertSpec Proofs.HeaderInv Spec.RecordSpec Proofs.WalkSkip Proofs.ReplaceInv Proofs.Totality
-  Model.Renamer Proofs.FailAtomic Spec.NameSpec Proofs.RenameSpec Proofs.RenameContent.
+  Model.Renamer Proofs.FailAtomic Spec.NameSpec Proofs.RenameSpec Proofs.RenameContent Proofs.RenameAny.
 
 Theorem C10_insert_bound : forall sec rr s s',
   m_insert_rr sec rr s = (s', Ok tt) -> (N.of_nat (length (pp_packet (fst s'))) <= 8192)%N.
@@ -121,3 +121,12 @@ Theorem C10_rename_total : forall p v it sl tl sfx, bytes_ok p -> parse p = Ok v
   (exists e, m_rename (wire_of_labels tl) (wire_of_labels sl) sfx (v, it) = ((v, it), Err e)).
 Proof. exact rename_total. Qed.
 Print Assumptions C10_rename_total.
+
+(** the same from any object satisfying the C08 invariant: success, or an error that changes nothing; no Panic outcome *)
+Theorem C10_rename_total_on_decompressed : forall v it sl tl sfx, dinv v ->
+  Forall lab sl -> Forall lab tl -> sl <> [] -> tl <> [] -> bytes_ok (wire_of_labels tl) ->
+  length (wire_of_labels sl) <= 255 -> length (wire_of_labels tl) <= 255 ->
+  (exists s', m_rename (wire_of_labels tl) (wire_of_labels sl) sfx (v, it) = (s', Ok tt)) \/
+  (exists e, m_rename (wire_of_labels tl) (wire_of_labels sl) sfx (v, it) = ((v, it), Err e)).
+Proof. exact rename_total_dinv. Qed.
+Print Assumptions C10_rename_total_on_decompressed.
